@@ -14,6 +14,8 @@
 //      fx0 = vgrad(x) (value only), fx / g = vgrad(x, gx).
 #include "common.h"
 #include <atomic>
+#include <chrono>
+#include <thread>
 #include <limits>
 #include <map>
 #include <memory>
@@ -307,9 +309,19 @@ std::atomic<bool>    g_recording{false};
 
 void pool_observer(const int event, const void*, long long, const long long b)
 {
-    if (event == static_cast<int>(nano::verif::pool_event::pop) && g_recording.load(std::memory_order_acquire))
+    if (!g_recording.load(std::memory_order_acquire))
+    {
+        return;
+    }
+    if (event == static_cast<int>(nano::verif::pool_event::pop))
     {
         g_pops.push_back(b);
+    }
+    else if (event == static_cast<int>(nano::verif::pool_event::run_begin))
+    {
+        // the chunks are tiny: without a pause the first worker that wakes up pops all of them; the pause (outside the
+        // queue's lock) lets the other workers take their share, so that the recorded schedules use several accumulators
+        std::this_thread::sleep_for(std::chrono::microseconds(40));
     }
 }
 
